@@ -131,14 +131,15 @@ class Net:
                     pgn = (m.get('dp', 0) << 16) | (self.pfps(m)[0] << 8)
                     for (tag, i, a) in self.listeners:
                         if i == si and (a is None or a == m['src']):
-                            ack_budget[(tag, pgn, m['dst'])] = ack_budget.get((tag, pgn, m['dst']), 0) + 1
+                            ack_budget.setdefault((tag, pgn, m['dst']), []).append(m['size'])
         for tag in exp:
             e = sorted(exp[tag])
             o = []
             for (pgn, sa, data) in obs[tag]:
                 k = (tag, pgn, sa)
-                if ack_budget.get(k, 0) > 0 and self._is_ack(data):
-                    ack_budget[k] -= 1
+                sz = self._ack_size(data, pgn)
+                if sz is not None and sz in ack_budget.get(k, ()):
+                    ack_budget[k].remove(sz)
                     continue
                 o.append((pgn, sa, data))
             o.sort()
@@ -148,6 +149,20 @@ class Net:
                 probs.append("%s: missing %s unexpected %s" % (
                     tag, [_brief(x) for x in miss[:3]], [_brief(x) for x in extra[:3]]))
         return probs
+
+    def _ack_size(self, data, pgn):
+        """message size acknowledged by an end-of-message acknowledgement for `pgn` (exact frame image), else None"""
+        if not self._is_ack(data):
+            return None
+        seg = SEG[self.dll]
+        if self.dll == 'j1939-21':
+            size = data[1] | (data[2] << 8)
+            ok = data[3] == (size + seg - 1) // seg and data[4] == 0xFF and (data[5] | (data[6] << 8) | (data[7] << 16)) == pgn
+        else:
+            size = data[1] | (data[2] << 8) | (data[3] << 16)
+            nseg = data[4] | (data[5] << 8) | (data[6] << 16)
+            ok = nseg == (size + seg - 1) // seg and (data[9] | (data[10] << 8) | (data[11] << 16)) == pgn
+        return size if ok else None
 
     def _is_ack(self, data):
         if self.dll == 'j1939-21':
